@@ -306,9 +306,15 @@ class Run:
 
 def load_known():
     try:
-        return json.load(open(KNOWN))["entries"]
+        ents = list(json.load(open(KNOWN))["entries"])
     except FileNotFoundError:
-        return []
+        ents = []
+    d = KNOWN[:-5] + ".d"      # staging area used while a property is being built
+    if os.path.isdir(d):
+        for f in sorted(os.listdir(d)):
+            if f.endswith(".json"):
+                ents += json.load(open(os.path.join(d, f)))["entries"]
+    return ents
 
 
 # --------------------------------------------------------------------------------------------
